@@ -399,3 +399,9 @@ mod tests {
         assert_eq!(state_ref.value, Some(42));
     }
 }
+
+// Verification hook (guard: --cfg p3r_verif, only under Kani): harness source lives in /verif.
+#[cfg(all(kani, p3r_verif))]
+mod verif_kani {
+    include!(concat!(env!("P3R_VERIF_DIR"), "/kani/context.rs"));
+}
